@@ -64,6 +64,15 @@ func TestVerifC21(t *testing.T) {
 	names := []string{"MTX_PATH", "MTX_QUERY", "G1", "G2", "MTX_SOURCE_ID", "MTX_SEGMENT_PATH", "HP_A", "HP_B"}
 	reName := regexp.MustCompile(`^[A-Za-z_][A-Za-z0-9_]*$`)
 	n := r.N(500, 12000)
+	// one pool for the whole run, as in the server: the same command string is launched again and again with other values
+	pool := &Pool{}
+	pool.Initialize()
+	type piece struct {
+		lit  bool
+		text string // literal text or variable name
+	}
+	var tplText string
+	var tplArgs [][]piece
 	for i := 0; i < n; i++ {
 		env := Environment{}
 		for _, k := range names {
@@ -72,45 +81,63 @@ func TestVerifC21(t *testing.T) {
 			}
 		}
 		status := []string{"", "", "0", "1", "2", "3", "126", "127", "255", "kill"}[rng.IntN(10)]
-		// argument specs -> template text and expected argv
-		nargs := rng.IntN(5)
-		var tpl strings.Builder
-		tpl.WriteString(probe)
-		var want []string
-		for a := 0; a < nargs; a++ {
-			np := 1 + rng.IntN(3)
-			var text, exp strings.Builder
-			for p := 0; p < np; p++ {
-				if rng.IntN(2) == 0 {
-					l := c21Lits[rng.IntN(len(c21Lits))]
-					// a literal directly after a $NAME reference must not extend the name
-					if p > 0 && l != "" && reName.MatchString(l[:1]) {
-						l = "-" + l
-					}
-					text.WriteString(c21Quote(rng, l))
-					exp.WriteString(l)
-				} else {
-					k := append(append([]string(nil), names...), "HP_OUTER", "HP_UNDEFINED")[rng.IntN(len(names)+2)]
+		// argument specs -> template text; every template is launched twice in a row (with other values) and some come back later
+		if i%2 == 0 {
+			nargs := rng.IntN(5)
+			var tplb strings.Builder
+			tplb.WriteString(probe)
+			tplArgs = nil
+			for a := 0; a < nargs; a++ {
+				np := 1 + rng.IntN(3)
+				var text strings.Builder
+				var ps []piece
+				for p := 0; p < np; p++ {
 					if rng.IntN(2) == 0 {
-						text.WriteString("${" + k + "}")
-					} else {
-						text.WriteString("$" + k)
-						// keep the reference delimited
-						if p+1 < np {
-							text.WriteString("''")
+						l := c21Lits[rng.IntN(len(c21Lits))]
+						// a literal directly after a $NAME reference must not extend the name
+						if p > 0 && l != "" && reName.MatchString(l[:1]) {
+							l = "-" + l
 						}
-					}
-					if v, ok := env[k]; ok {
-						exp.WriteString(v)
+						text.WriteString(c21Quote(rng, l))
+						ps = append(ps, piece{true, l})
 					} else {
-						exp.WriteString(os.Getenv(k))
+						k := append(append([]string(nil), names...), "HP_OUTER", "HP_UNDEFINED")[rng.IntN(len(names)+2)]
+						if rng.IntN(2) == 0 {
+							text.WriteString("${" + k + "}")
+						} else {
+							text.WriteString("$" + k)
+							// keep the reference delimited
+							if p+1 < np {
+								text.WriteString("''")
+							}
+						}
+						ps = append(ps, piece{false, k})
 					}
 				}
+				if text.Len() == 0 {
+					text.WriteString("''")
+				}
+				tplb.WriteString(" " + text.String())
+				tplArgs = append(tplArgs, ps)
 			}
-			if text.Len() == 0 {
-				text.WriteString("''")
+			tplText = tplb.String()
+		} else {
+			r.Count("template_launched_again_with_other_values", 1)
+		}
+		var tpl strings.Builder
+		tpl.WriteString(tplText)
+		var want []string
+		for _, ps := range tplArgs {
+			var exp strings.Builder
+			for _, pc := range ps {
+				if pc.lit {
+					exp.WriteString(pc.text)
+				} else if v, ok := env[pc.text]; ok {
+					exp.WriteString(v)
+				} else {
+					exp.WriteString(os.Getenv(pc.text))
+				}
 			}
-			tpl.WriteString(" " + text.String())
 			want = append(want, exp.String())
 		}
 		out := filepath.Join(dir, fmt.Sprintf("out%d.json", i))
@@ -120,8 +147,6 @@ func TestVerifC21(t *testing.T) {
 		}
 		var mu sync.Mutex
 		var exitErrs []error
-		pool := &Pool{}
-		pool.Initialize()
 		cmd := &Cmd{Pool: pool, Cmdstr: tpl.String(), Restart: false, Env: env, OnExit: func(err error) {
 			mu.Lock()
 			exitErrs = append(exitErrs, err)
@@ -129,7 +154,7 @@ func TestVerifC21(t *testing.T) {
 		}}
 		r.SetCurrent(map[string]any{"template": tpl.String(), "env": env})
 		cmd.Start()
-		pool.Close()
+		pool.Close() // waits for the command (the pool stays usable)
 		key := tpl.String() + vmon.JSON(env)
 		r.Eval(key)
 		wit := map[string]any{"template": tpl.String(), "env": env, "expected_argv": want, "status": status}
@@ -197,6 +222,6 @@ func TestVerifC21(t *testing.T) {
 			}
 		}
 	}
-	r.Finish("real externalcmd.Cmd launching the harness probe: templates of 0..4 arguments, each 1..3 pieces (shell-quoted literals with spaces, quotes, metacharacters; $VAR and ${VAR} references to hook variables, to a process-environment variable and to an undefined one) x hook environments whose values contain spaces, quotes, '$' references, ';', newlines, globs, UTF-8 (a name also present in the server's own environment); exit statuses 0,1,2,3,126,127,255 and SIGKILL. Oracle: argv seen by the probe == argv implied by the template with values inserted verbatim (count and content); every hook variable appears exactly once with the exact value; non-zero status => OnExit error naming that status; status 0 => no error. non-trivial = distinct (template, environment)",
+	r.Finish("real externalcmd.Cmd launching the harness probe from one Pool (every template launched twice in a row with independently drawn values): templates of 0..4 arguments, each 1..3 pieces (shell-quoted literals with spaces, quotes, metacharacters; $VAR and ${VAR} references to hook variables, to a process-environment variable and to an undefined one) x hook environments whose values contain spaces, quotes, '$' references, ';', newlines, globs, UTF-8 (a name also present in the server's own environment); exit statuses 0,1,2,3,126,127,255 and SIGKILL. Oracle: argv seen by the probe == argv implied by the template with values inserted verbatim (count and content); every hook variable appears exactly once with the exact value; non-zero status => OnExit error naming that status; status 0 => no error. non-trivial = distinct (template, environment)",
 		"literals never contain '$'; a process killed by a signal is not judged; Restart mode is not exercised (5 s pause)")
 }
